@@ -69,7 +69,8 @@ pub fn gen(ch: &mut Chooser, max_variants: usize, key_choices: usize) -> Case {
     let rule = *ch.pick("rename_all", &RULES);
     let algebraic = variants.iter().any(|v| v.1 != PK::Unit);
     let keys = if algebraic { KEYS[ch.choose("keys", key_choices)] } else { KEYS[0] };
-    let style = if ch.flag("attr_style") { AttrStyle::MergedReversed } else { AttrStyle::Separate };
+    // one attribute per argument; all arguments merged in reverse order; one per argument, each list with a trailing comma
+    let style = *ch.pick("attr_style", &[AttrStyle::Separate, AttrStyle::MergedReversed, AttrStyle::SeparateReversed]);
     let lang = *ch.pick("lang", &ALL_LANGS);
     let prefixed = ch.flag("cfg");
     Case { variants, rule, keys, lang, prefixed, style }
